@@ -113,3 +113,11 @@ Definition state_atoms (s : sname) : list string :=
   | ST ks => map (fun c => vec_method (st1t_name c)) ks
   | ST012 => [vec_method "0_1_2_superposition"] | ST001122 => [vec_method "00_11_22_superposition"]
   end.
+
+(* ---------------- POVM dispatch: the pure-state vectors of a rank-1 POVM name, outcome by outcome (itertools.product order over the factors),
+   each as the list of vector-function atoms of its Kronecker factors; the auxiliary validity lists in quara's order *)
+Fixpoint lcart {A} (ls : list (list A)) : list (list A) := match ls with [] => [[]] | l :: r => flat_map (fun a => map (cons a) (lcart r)) l end.
+Definition povm1_outcome_atoms (k : nat) : list (list string) := map (fun out => concat (map state_atoms out)) (povm_states k).
+Definition povm_atoms (ks : list nat) : list (list string) := map (fun c => concat c) (lcart (map povm1_outcome_atoms ks)).
+Definition povm_rank1_names : list string := ["x"; "y"; "z"; "bell"; "z3"; "01x3"; "01y3"; "02x3"; "02y3"; "12x3"; "12y3"].
+Definition povm_not_rank1_names : list string := ["z2"; "xxparity"; "zzparity"].
